@@ -30,7 +30,8 @@ def run_case(rs, ctx):
     labels = ["int", "str", "float"][(ctx.index // 48) % 3]
     n_jobs = 3 if (ctx.index // 144) % 2 else 1
     backend = "threading" if n_jobs > 1 and (ctx.tier == "quick" or rs.integers(16)) else None  # None -> loky processes (slow)
-    cfg = gen.gen_cfg(rs, l, p, labels=labels, n_arms=int(rs.integers(2, 5)), n_jobs=n_jobs, backend=backend)
+    cfg = gen.gen_cfg(rs, l, p, labels=labels, n_arms=int(rs.integers(1, 5)), n_jobs=n_jobs, backend=backend)
+    cfg["min_arms"] = 1  # a bandit may shrink to (or start with) a single arm
     nf = int(gen.pick(rs, [1, 2, 3]))
     sh = gen.Shadow(cfg, nf)
     ops = gen.gen_ops(rs, cfg, sh, int(rs.integers(0, 4)), ["add_arm", "remove_arm"]) + \
